@@ -185,7 +185,8 @@ def register(reg):
 
 _AD = {"name": "time-adapter-histories", "script": "replay/drivers/seq_adapter.py", "args": ["--json"], "timeout": 3000}
 _SPILL = {"name": "composition-spill-placement", "script": "replay/drivers/bnd_spill.py", "args": ["--json"], "timeout": 1200}
-BOUNDED = {"C09": [_AD], "C10": [_AD, _SPILL], "C11": [_AD], "C12": [_AD]}
+_CHAIN = {"name": "upstream-adapter-chains", "script": "replay/drivers/bnd_chain.py", "args": ["--json"], "timeout": 600}
+BOUNDED = {"C09": [_AD, _CHAIN], "C10": [_AD, _SPILL], "C11": [_AD, _CHAIN], "C12": [_AD, _CHAIN]}
 REPLAY = {}
 for _cls in CACHING:
     REPLAY[(f"{T}.{_cls}._interpolate", _cls)] = "seq_adapter.py"
